@@ -35,7 +35,7 @@ func (c10) Info(t core.Tier) core.Info {
 	}
 }
 
-func (c10) NumCases(t core.Tier) int { return tierN(t, 1500, 80000) }
+func (c10) NumCases(t core.Tier) int { return tierN(t, 15000, 400000) }
 
 var pathGrammar = regexp.MustCompile(`^[^.\[\]]+(\[[0-9]+\])*(\.[^.\[\]]+(\[[0-9]+\])*)*$|^(\[[0-9]+\])+(\.[^.\[\]]+(\[[0-9]+\])*)*$`)
 
